@@ -63,7 +63,9 @@ def regen(cfgs):
         rc, out = sh([hx_path(c, "release"), "dump"])
         if rc != 0:
             return ["dump failed for %s" % c]
-        open(p, "w").write(out)
+        tmp = "%s.%d" % (p, os.getpid())
+        open(tmp, "w").write(out)
+        os.replace(tmp, p)          # atomic: checks may run concurrently
         args.append("%s=%s" % (c, p))
     rc, out = sh([sys.executable, os.path.join(VERIF, "gen", "gen_lean.py"), os.path.join(LEAN, "MinLex", "Gen")] + args)
     notes = [l for l in out.splitlines() if l.startswith("CONFIG-DEPENDENT")]
